@@ -23,6 +23,7 @@ type SpecEnv struct {
 	vars   map[string]*Val
 	lookup func(st *State, name string) (*Val, bool)
 	entry  *State // state at loop entry (for entry(e) in loop clauses)
+	visited string // visited-key set of the map range loop the clause belongs to
 	frame  *Frame
 	depth  int
 }
@@ -346,6 +347,9 @@ func (env *SpecEnv) binary(n *ast.BinaryExpr) *Val {
 	if isString(a.Ty) && n.Op == token.ADD {
 		return x.strConcat(env.st, a, b, a.Ty)
 	}
+	if isString(a.Ty) && (n.Op == token.LSS || n.Op == token.LEQ || n.Op == token.GTR || n.Op == token.GEQ) {
+		return mkBool(x.strCompare(n.Op, a, b))
+	}
 	if len(a.L) != 1 || len(b.L) != 1 {
 		sfail("operator %s on composite values", n.Op)
 	}
@@ -460,6 +464,22 @@ func (env *SpecEnv) call(n *ast.CallExpr) *Val {
 			sub := *env
 			sub.st = env.old
 			return sub.eval(n.Args[0])
+		case "has":
+			m := env.eval(n.Args[0])
+			if !isMap(m.Ty) {
+				sfail("has() needs a map")
+			}
+			k := env.coerce(env.eval(n.Args[1]), under(m.Ty).(*types.Map).Key())
+			return mkBool(tAnd(tNot(tEq(m.L[0], "0")), x.mapHas(env.st, m, x.mapKey(env.st, m.Ty, k))))
+		case "visited":
+			if env.visited == "" {
+				sfail("visited() is only available in invariants of a range-over-map loop")
+			}
+			k := env.eval(n.Args[0])
+			if isString(k.Ty) {
+				return mkBool(tSel(env.visited, x.strID(k)))
+			}
+			return mkBool(tSel(env.visited, k.L[0]))
 		case "entry":
 			if env.entry == nil {
 				sfail("entry() is only available in loop clauses")
